@@ -114,7 +114,7 @@ S2 = [["directional"], ["after", "before"]]
 
 
 def _tree(rng, vocab, weights):
-    n = rng.randint(1, 7)
+    n = rng.choice([rng.randint(1, 7), rng.randint(6, 12)])
     labels = rng.choices(vocab, weights, k=n)
     edges = [[rng.randrange(0, j), j] for j in range(1, n)]     # a random rooted tree, edges parent -> child
     return {"n": n, "edges": edges, "labels": labels}
@@ -181,6 +181,14 @@ def _fam(rng, f):
             c = {"kind": "ngramvec", "X": X, "Xt": _corpus(rng, 10), "nsize": rng.choice([1, 2, 2, 3]),
                  "prune": pr or ({} if c.get("excluded") or c.get("dict") else {"min_occurrences": 2}),
                  "excluded": c.get("excluded"), "dict": c.get("dict"), "mask": MASK}
+    if c["kind"] in ("token", "timed", "multi", "ngram") and rng.random() < 0.35:
+        # history: the same estimator object was fitted before, on a corpus with another vocabulary
+        R = _corpus(rng, 10, 8)
+        if c["kind"] == "timed":
+            R = [[[t, float(i)] for i, t in enumerate(q)] for q in R]
+        elif c["kind"] == "multi":
+            R = [[[t] for t in q] for q in R]
+        c["refit_first"] = R
     return c
 
 
@@ -221,7 +229,10 @@ def corpus():
     f5 = [{"kind": "ngramvec", "X": [["a", "b", "x", "a", "b"], ["a", "b", "y"]], "Xt": [["a", "b", "z", "a"]], "nsize": 2,   # D7
            "prune": {"min_occurrences": 2}, "excluded": None, "dict": None, "mask": MASK},
           {"kind": "tree", "trees": [{"n": 4, "edges": [[0, 1], [1, 2], [1, 3]], "labels": ["a", "x", "b", "a"]}],
-           "prune": {"min_occurrences": 2}, "mask": MASK, "radius": 2, "kernel": "flat", "orient": "directional"}]
+           "prune": {"min_occurrences": 2}, "mask": MASK, "radius": 2, "kernel": "flat", "orient": "directional"},
+          # two removed siblings, the lower-numbered one with a child numbered above the other
+          {"kind": "tree", "trees": [{"n": 6, "edges": [[0, 1], [0, 2], [1, 3], [1, 4], [2, 5]], "labels": ["a", "x", "x", "b", "a", "b"]}],
+           "prune": {"ignored_tokens": ["x"]}, "mask": MASK, "radius": 2, "kernel": "flat", "orient": "directional"}]
     return _interleave([f0, f1, f2, f3, f4, f5])
 
 
@@ -549,8 +560,10 @@ def _oracle_tree(case, o):
         if "fit_exc" in o[name]:
             return [_F(f"mask.tree.raises.{name}", f"{name}: fit_transform raises {o[name]['fit_exc']}")]
     if "fit_exc" in o["none"]:
-        if "dictionary is empty" not in o["none"]["fit_exc"] and "zero-size" not in o["none"]["fit_exc"]:
-            pass    # the unmasked variant of the tree vectorizer is outside this property's tree claim
+        # what the unmasked tree variant computes is C15's definition; that deleting the removed labels works at all
+        # whenever the masked run of the same input works is this property's
+        if "tokens" in o["mask"] and len(o["mask"]["tokens"]) > 1 and "KeyError" in o["none"]["fit_exc"]:
+            return [_F("mask.tree.raises.none", f"with mask_string unset fit_transform raises {o['none']['fit_exc']} (the masked run keeps {len(o['mask']['tokens']) - 1} labels)")]
     fails += _vocab_checks(case, {"none": o["none"] if "tokens" in o["none"] else {}, "mask": o["mask"], "null": o["null"]}, "mask.tree")
     if fails:
         return fails
